@@ -158,11 +158,11 @@ def runCert (fs : List String) : String :=
   match G.runH a b with
   | some h =>
     if h.outside then "outside" else
-    let cs := G.mergeOut h.out h.extra
+    let cs := h.all
     let tail := match G.execAllH (G.HDev.ofCfg a) cs with
       | some x =>
         "acc" ++ (if G.viewH x.cfg == G.viewH b then "+conv" else "") ++
-          (if G.frame a.objs x.d.objs == G.frame a.objs a.objs then "+frame" else "") ++ "\t" ++
+          (if G.frameH a x.d.objs == G.frameH a a.objs then "+frame" else "") ++ "\t" ++
           (match G.scriptH x.cfg b with
            | some ls => "|".intercalate ls
            | none => "abort")
